@@ -326,9 +326,10 @@ TotalSqueezes(st) ==
 CompensatePlans(st) ==
   IF S \in {"marlin", "sonic", "pst13"} /\ st.kind = "batch" /\ Len(Groups(st.qs)) >= 2
   THEN (IF Groups(st.qs)[1].pt # Groups(st.qs)[2].pt /\ st.comms[Groups(st.qs)[1].labels[1]].lbound = NONE
+        \* two hypotheses about the second randomizer: the next sponge squeeze (d > 0), or the constant 1 (d = 0)
         THEN {Plan("compensate", "not_accept",
                    <<[M("compensate") EXCEPT !.l = WKey(st, 1, 1)[1], !.pt = WKey(st, 1, 1)[2],
-                                             !.k = SqIndex(st, 1, 1), !.d = TotalSqueezes(st) + 1]>>)}
+                                             !.k = SqIndex(st, 1, 1), !.d = dd]>>) : dd \in {TotalSqueezes(st) + 1, 0}}
         ELSE {})
   ELSE {}
 PlansC02(st) ==
